@@ -432,6 +432,8 @@ func TestC06(t *testing.T) {
 	_ = ref.Sentence
 }
 
+var c06Nonce int
+
 // c06Call is one call of an entry point on arguments of its own.
 type c06Call struct {
 	Kind string `json:"kind"` // parse | eval | match | expand | print
@@ -482,10 +484,9 @@ func (c c06Call) run() string {
 // checkC06Concurrent runs the calls one after the other, then all at once
 // (three times), and compares.
 func checkC06Concurrent(c c06Concurrent) error {
+	// at the same time first (anything the library keeps between calls is
+	// still cold then), alone afterwards
 	want := make([]string, len(c.Calls))
-	for i, call := range c.Calls {
-		want[i] = call.run()
-	}
 	for round := 0; round < 3; round++ {
 		got := make([]string, len(c.Calls))
 		var wg sync.WaitGroup
@@ -502,6 +503,11 @@ func checkC06Concurrent(c c06Concurrent) error {
 		case <-done:
 		case <-time.After(60 * time.Second):
 			return fmt.Errorf("the calls %+v, started at the same time, did not all return within 60s", c.Calls)
+		}
+		if round == 0 {
+			for i, call := range c.Calls {
+				want[i] = call.run()
+			}
 		}
 		for i := range got {
 			if got[i] != want[i] {
@@ -548,9 +554,13 @@ func TestC06Race(t *testing.T) {
 				case "eval":
 					c.Src = rapid.SampledFrom(c06EvalExprs).Draw(rt, "expr")
 				case "match":
-					c.Src = rapid.SampledFrom([]string{"a*", "*b", "[a-c]?", "a", "?", "x*y", "*"}).Draw(rt, "pat")
+					// a pattern nobody has used before
+					c06Nonce++
+					c.Src = rapid.SampledFrom([]string{"a*", "*b", "[a-c]?", "a", "?", "x*y", "*"}).Draw(rt, "pat") + fmt.Sprintf("n%d", c06Nonce)
 				case "expand":
-					c.Src = rapid.SampledFrom([]string{"${x%b*}", "${x#*a}", "$((x + 1))", "\"$x\" ${y:-z}", "a*"}).Draw(rt, "word")
+					c06Nonce++
+					c.Src = rapid.SampledFrom([]string{"${x%b*N}", "${x#*aN}", "$((x + 1))", "\"$x\" ${y:-z}", "a*N"}).Draw(rt, "word")
+					c.Src = strings.ReplaceAll(c.Src, "N", fmt.Sprintf("n%d", c06Nonce))
 				default:
 					o := genOpts()
 					o.MaxDepth = rapid.IntRange(1, 2).Draw(rt, "maxdepth")
